@@ -88,6 +88,9 @@ type ExtendedOTSendResult struct {
 // A single setup can be used for many invocations of this protocol, so long as the
 // hash is initialized with some kind of nonce.
 func ExtendedOTSend(ctxHash *hash.Hash, setup *CorreOTSendSetup, batchSize int, msg *ExtendedOTReceiveMessage) (*ExtendedOTSendResult, error) {
+	if msg == nil || msg.CorreMsg == nil {
+		return nil, fmt.Errorf("ExtendedOTSend: missing message")
+	}
 	inflatedBatchSize := batchSize + params.OTParam + params.StatParam
 
 	correResult, err := CorreOTSend(ctxHash, setup, inflatedBatchSize, msg.CorreMsg)
